@@ -45,7 +45,7 @@ fn state(r: &Recs, with_unreachable: bool) -> WarpState {
 
 const ROOT: NodeKey = NodeKey { warp_id: W, local_id: A };
 
-//@ tier=quick timeout=2400 mem=16 bits=2100 unwind=7 unwindset="hashmodel=520;eq32=33;memcmp=34" fns=warp_core::snapshot::compute_state_root,collect_reachable_graph,hash_attachment_value,hash_atom_payload
+//@ tier=off timeout=2400 mem=16 bits=2100 unwind=7 unwindset="hashmodel=520;eq32=33;memcmp=34" fns=warp_core::snapshot::compute_state_root,collect_reachable_graph,hash_attachment_value,hash_atom_payload
 //@ bounds="one instance, nodes A -E-> B, atom attachment (2 bytes) on E; node types, edge type, attachment type id and bytes symbolic in two states of this shape"
 //@ desc="state root changes whenever a reachable node type, edge type, attachment type or attachment byte changes: equal roots <=> equal reachable contents"
 proof_h! {
@@ -59,7 +59,7 @@ proof_h! {
     }
 }
 
-//@ tier=quick timeout=2400 mem=16 bits=1400 unwind=7 unwindset="hashmodel=520;eq32=33;memcmp=34" fns=warp_core::snapshot::compute_state_root,collect_reachable_graph
+//@ tier=off timeout=2400 mem=16 bits=1400 unwind=7 unwindset="hashmodel=520;eq32=33;memcmp=34" fns=warp_core::snapshot::compute_state_root,collect_reachable_graph
 //@ bounds="the same shape with and without an unreachable node U carrying a symbolic type and a symbolic attachment"
 //@ desc="unreachable content does not enter the state root"
 proof_h! {
@@ -72,7 +72,7 @@ proof_h! {
     }
 }
 
-//@ tier=quick timeout=2400 mem=16 bits=1100 unwind=7 unwindset="hashmodel=520;eq32=33;memcmp=34" fns=warp_core::snapshot::compute_state_root,warp_core::snapshot_accum::SnapshotAccumulator::from_warp_state,SnapshotAccumulator::build
+//@ tier=off timeout=2400 mem=16 bits=1100 unwind=7 unwindset="hashmodel=520;eq32=33;memcmp=34" fns=warp_core::snapshot::compute_state_root,warp_core::snapshot_accum::SnapshotAccumulator::from_warp_state,SnapshotAccumulator::build
 //@ bounds="the same shape (with the unreachable node), contents symbolic"
 //@ desc="the two independent state-root engines (graph walk and columnar accumulator) produce the same root"
 proof_h! {
